@@ -11,6 +11,8 @@ import (
 	"flag"
 	"fmt"
 	"os"
+	"runtime/debug"
+	"runtime/pprof"
 	"sync"
 
 	"github.com/crossplane/crossplane/zzverif/scen"
@@ -44,6 +46,11 @@ type stats struct {
 	Samples   []any          `json:"samples"`
 }
 
+var (
+	refMu    sync.Mutex
+	refCache = map[string]map[string]any{}
+)
+
 func newStats() *stats {
 	return &stats{Calls: map[string]int{}, Others: map[string]int{}, UnfiredAt: map[string]int{}, Hits: map[string]int{}, Results: map[string]int{}}
 }
@@ -68,10 +75,20 @@ func one(id string, in input, raw map[string]any, faults []fault, real bool, st 
 	if len(faults) > 0 {
 		// the same initial contents initialised once without any fault: the
 		// reference the state after "aborted run + rerun" is compared with
-		rw := newWorld(id, in, raw, false)
-		rw.doRun()
-		ref = rw.proj()
-		st.Runs++
+		// (computed once per initial configuration)
+		ck, _ := json.Marshal(in)
+		refMu.Lock()
+		ref = refCache[string(ck)]
+		refMu.Unlock()
+		if ref == nil {
+			rw := newWorld(id, in, raw, false)
+			rw.doRun()
+			ref = rw.proj()
+			st.Runs++
+			refMu.Lock()
+			refCache[string(ck)] = ref
+			refMu.Unlock()
+		}
 	}
 	w := newWorld(id, in, raw, real)
 	w.record = true
@@ -178,7 +195,14 @@ func main() {
 	sweepN := flag.Int("sweep", 0, "number of fault-free scenarios to sweep over every real call index of run 1 x {fail, crashAfter}")
 	realN := flag.Int("realgen", 0, "number of scenarios run with the untouched RSA certificate generator")
 	workers := flag.Int("workers", 12, "parallel scenario executions")
+	prof := flag.String("cpuprofile", "", "write a CPU profile")
 	flag.Parse()
+	debug.SetGCPercent(400)
+	if *prof != "" {
+		f, _ := os.Create(*prof)
+		_ = pprof.StartCPUProfile(f)
+		defer pprof.StopCPUProfile()
+	}
 
 	raws, err := scen.Load(*scenarios)
 	if err != nil {
@@ -195,13 +219,13 @@ func main() {
 	hows := []string{"error", "conflict", "crashBefore"}
 
 	type job struct {
-		sc     scenario
-		in     input
-		m      map[string]any
-		fs     []fault
-		how    string
-		real   bool
-		sweep  bool
+		sc      scenario
+		in      input
+		m       map[string]any
+		fs      []fault
+		how     string
+		real    bool
+		sweep   bool
 		derived bool
 	}
 	type res struct {
@@ -230,7 +254,7 @@ func main() {
 			fs = append(fs, fault{Run: 1, At: fmt.Sprintf("#%d", sc.Sweep.Idx), F: sc.Sweep.F, How: how})
 		}
 		j := job{sc: sc, in: in, m: m, fs: fs, how: how, real: sc.RealGen}
-		if !j.real && realLeft > 0 && sc.Sweep == nil && (i+*seed)%7 == 0 {
+		if !j.real && realLeft > 0 && sc.Sweep == nil && (i+*seed)%7 == 0 && (in.Srv == "absent" || in.Srv == "empty") {
 			j.real = true
 			realLeft--
 		}
